@@ -70,6 +70,9 @@ def run(ctx: Ctx) -> None:
     diagnostics_and_inputs(ctx, py)
     data_path_memos(ctx, py)
     process_state(ctx, py)
+    rust_device_perf_stores(ctx, rs)
+    from .c05 import fetch_decoder_fresh
+    fetch_decoder_fresh(ctx, py, "C07.2/fetch-window-fresh")
 
 
 # ---------------------------------------------------------------------------
@@ -661,3 +664,67 @@ def process_state(ctx: Ctx, py: PyProgram) -> None:
                               f"`{g}` is process-wide mutable state written from function bodies and not in the reviewed table: {sorted(set(w for _l, w in problems))} "
                               "read or store it without a copy, so what one call leaves there is seen by every later call (also of other objects) in the process", f"{rel}:{ln}")
     ctx.instance("C07.4/process-state", "module-level containers / global rebinding in the decode, execute, assemble and bus modules: reviewed table or copy-in/copy-out of immutable values", n, 2)
+
+
+def rust_device_perf_stores(ctx: Ctx, rs: RustProgram) -> None:
+    """Device models (LCD, keyboard, timers, memory image) read the tracing clock (`perfetto_*`) only to label trace events.  A value
+    derived from it - directly, through a small wrapper function, or through a local - that is *stored* into device state other than
+    trace metadata makes what the CPU later reads depend on a process-wide counter that other runtimes bump and constructors reset."""
+    global PERF_FNS
+    files = ("core/src/lcd.rs", "core/src/keyboard.rs", "core/src/timer.rs", "core/src/memory.rs")
+    saved = set(PERF_FNS)
+
+    def has_src(e: Any, names: set) -> bool:
+        for x in walk(e) if isinstance(e, (dict, list)) else []:
+            if x.get("k") == "call" and expr_text(x["f"]).split("::")[-1] in names:
+                return True
+            if x.get("k") == "path" and x["p"].split("::")[-1] in names:
+                return True
+        return False
+    try:
+        wrappers: set[str] = set()
+        changed = True
+        while changed:
+            changed = False
+            for suf in files:
+                for fn in rs.fns_in(suf):
+                    if fn.body is None or fn.name in wrappers or any(k in fn.name for k in ("trace", "emit", "record", "perfetto", "log")):
+                        continue
+                    stmts = fn.body.get("stmts", []) if isinstance(fn.body, dict) else []
+                    if len(stmts) <= 3 and has_src(fn.body, PERF_FNS | wrappers) and not any(x.get("k") in ("assign", "opassign") for x in walk(fn.body)):
+                        wrappers.add(fn.name)
+                        changed = True
+        PERF_FNS = set(PERF_FNS) | wrappers
+        n = 0
+        for suf in files:
+            rel = rs.file_for(suf)
+            ctx.file_used(REPO / rel)
+            for fn in rs.fns_in(suf):
+                if fn.body is None:
+                    continue
+                tainted = _tainted_names(fn.body, set())
+                d = rs_defs(fn.body)
+                for a in walk(fn.body):
+                    if a.get("k") not in ("assign", "opassign"):
+                        continue
+                    rhs = a.get("r") or a.get("rhs") or a.get("value")
+                    lhs = a.get("l") or a.get("lhs") or a.get("target")
+                    if rhs is None or lhs is None:
+                        raise AnalysisError(f"rust assignment node without l/r keys: {sorted(a)}")
+                    n += 1
+                    if not (has_src(rhs, PERF_FNS) or any(x.get("k") == "path" and x["p"] in tainted for x in walk(rhs))):
+                        continue
+                    lt = expr_text(lhs)
+                    roots = [x["p"] for x in walk(lhs) if x.get("k") == "path"]
+                    deftext = " ".join(expr_text(v) for r_ in roots for v in d.get(r_, []) if isinstance(v, dict))
+                    local_only = len(roots) == 1 and lt == roots[0] and roots[0] != "self"
+                    # a record of a trace type (`LcdWriteTrace {..}`) is trace metadata wherever it is put
+                    rdefs = [rhs] + [v for x in walk(rhs) if x.get("k") == "path" for v in d.get(x["p"], []) if isinstance(v, dict)]
+                    trace_record = any(v.get("k") == "struct_lit" and "trace" in expr_text(v).split("{")[0].lower() for v in rdefs)
+                    if "trace" in lt or "trace" in deftext or local_only or trace_record:
+                        continue
+                    ctx.violation("C07.2/device-perf-store", key_of(rel, fn.qual, f"{lt} <- tracing clock"),
+                                  f"{fn.qual} stores a value derived from the tracing clock into `{lt}` (`{expr_text(a)[:90]}`): device state the CPU can observe then depends on a process-wide counter, not on the machine's own history", f"{rel}:{a.get('ln')}")
+        ctx.instance("C07.2/device-perf-store", "assignments in the Rust device models checked for values derived from the tracing clock", n, 150)
+    finally:
+        PERF_FNS = saved
